@@ -161,6 +161,7 @@ SCORES = {
     'neginf': lambda x, s: -jnp.inf * jnp.ones(cont_in(x).shape[:-1]),
     'nan_region': lambda x, s: jnp.where(cont_in(x)[..., 0] < 0.3, jnp.nan, -jnp.sum((cont_in(x) - 0.6) ** 2, axis=-1)),
     'categorical': lambda x, s: (x.categorical.padded_array[..., 0] == 1).astype(jnp.float32),
+    'seeded': lambda x, s: -jnp.sum((cont_in(x) - 0.3) ** 2, axis=-1) + jax.random.uniform(s, ()),
 }
 
 
@@ -217,11 +218,13 @@ def battery(only=None):
         for (nc, cats, pad) in (layouts if '[' not in strat else layouts[:1]):
             if quick and (nc, cats, pad) not in (layouts[0], layouts[1], layouts[3]):
                 continue
-            for sname in (('sphere', 'neginf') if quick else ('sphere', 'corner', 'nan_region', 'neginf')):
-                if nc == 0 and sname in ('nan_region',):
+            for sname, with_prior in [(n_, False) for n_ in (('sphere', 'neginf', 'seeded') if quick else ('sphere', 'corner', 'nan_region', 'neginf', 'seeded'))] + [('sphere', True)]:
+                if nc == 0 and sname in ('nan_region', 'seeded'):
+                    continue
+                if with_prior and '[' in strat:
                     continue
                 for n_parallel in (None, 2):
-                    if n_parallel and sname != 'sphere':
+                    if n_parallel and (sname != 'sphere' or with_prior):
                         continue
                     conv = make_converter(nc, cats, pad)
                     if strat == 'eagle':
@@ -236,12 +239,19 @@ def battery(only=None):
                             continuous_feature_perturbation_type=es.ContinuousFeaturePerturbationType.MULTIPLICATIVE))
                     score = SCORES[sname] if n_parallel is None else par(SCORES[sname])
                     inp = {'strategy': strat, 'n_continuous': nc, 'categories': list(cats), 'feature_padding': pad, 'score': sname,
-                           'n_parallel': n_parallel, 'count': 3, 'max_evaluations': 60, 'suggestion_batch_size': 5, 'seed': 1}
+                           'n_parallel': n_parallel, 'count': 3, 'max_evaluations': 60, 'suggestion_batch_size': 5, 'seed': 1,
+                           'prior_trials': 12 if with_prior else 0}
                     key = jax.random.PRNGKey(1)
+                    prior = None
+                    if with_prior:
+                        rs = np.random.RandomState(5)
+                        trs = [vz.Trial(parameters=dict([('x%d' % i, float(rs.rand())) for i in range(nc)] +
+                                                        [('c%d' % i, str(int(rs.randint(k)))) for i, k in enumerate(cats)])) for _ in range(12)]
+                        prior = conv.to_features(trs)
                     try:
                         opt = vb.VectorizedOptimizerFactory(strategy_factory=fac, max_evaluations=60, suggestion_batch_size=5)(conv)
-                        res = opt(score, count=3, seed=key, n_parallel=n_parallel)
-                        res2 = opt(score, count=3, seed=key, n_parallel=n_parallel)
+                        res = opt(score, count=3, seed=key, n_parallel=n_parallel, prior_features=prior)
+                        res2 = opt(score, count=3, seed=key, n_parallel=n_parallel, prior_features=prior)
                     except Exception as ex:
                         note('returns_requested_count', dict(inp, exception='%s: %s' % (type(ex).__name__, str(ex)[:200])))
                         runs.append(dict(inp, violated=['exception']))
